@@ -711,3 +711,45 @@ func StaleRenewalFailsAfterForeignHolderDied(L time.Duration, k int) (out Outcom
 	la.Unlock()
 	return out
 }
+
+// RelockAfterLateRenewalAnswer: renewal k of the first tenure has been executed and its answer is on its way when
+// the holder unlocks; the answer arrives (it may leave an armed attempt of the finished tenure behind - tolerated);
+// shortly after the same Locker is locked again. The second tenure stays 2.5 leases; a Locker of another provider
+// spinning TryLock must never get the lock.
+func RelockAfterLateRenewalAnswer(L time.Duration, k int, gap time.Duration) (out Outcome) {
+	stop := canary()
+	defer func() { out.Stall = stop() }()
+	inner := inmem.New()
+	tA := New(inner)
+	pa := dist.NewKvsLockProvider(tA, "/lt/")
+	pb := dist.NewKvsLockProvider(inner, "/lt/")
+	for _, p := range []dist.LockProvider{pa, pb} {
+		dist.VerifSetLeaseTTL(p, L)
+		defer p.Shutdown()
+	}
+	g := tA.Gate(fmt.Sprintf("Cas#%d:after", k))
+	la, lb := pa.NewLocker("x"), pb.NewLocker("x")
+	la.Lock()
+	if !Arrived(g, time.Duration(k+2)*L+10*time.Second) {
+		close(g.Release)
+		la.Unlock()
+		return Outcome{Skipped: "renewal did not come"}
+	}
+	la.Unlock()
+	close(g.Release) // the answer arrives after the Unlock
+	time.Sleep(gap)
+	la.Lock() // second tenure
+	t0 := time.Now()
+	for time.Since(t0) < 5*L/2 {
+		if lb.TryLock(context.Background()) {
+			out.Sig = "two-holders-after-relock-behind-a-late-renewal-answer"
+			out.What = fmt.Sprintf("lease %v: renewal %d of the first tenure was answered after the holder had unlocked; %v later the same Locker was locked again; %v into that tenure another provider's TryLock succeeded although the holder has not unlocked; storage calls: %v", L, k, gap, time.Since(t0).Round(time.Millisecond), tA.Events())
+			out.TimeBound = true
+			lb.Unlock()
+			break
+		}
+		time.Sleep(L / 10)
+	}
+	la.Unlock()
+	return out
+}
